@@ -282,7 +282,11 @@ class ListWithAdjustments(object):
       assert self.count_range(begin, end) > 0
       min_key, max_key = self._find_sparse_enough_range(begin, end)
       self._adjust_range(min_key, max_key)
-      assert is_valid_range(begin, self._insertions.irange(begin, end), end)
+      # The neighbors have been relabeled too (begin and end are their old keys, which a new key may
+      # now legitimately coincide with), so check against their adjusted keys.
+      new_begin = self._adj_get_key(index - 1) if index > 0 else 0.0
+      new_end = self._adj_get_key(index) if index < len(self._orig_list) else float('inf')
+      assert is_valid_range(new_begin, self._insertions.irange(new_begin, new_end), new_end)
 
   def _find_sparse_enough_range(self, begin, end):
     # frac is a parameter used for relabeling, corresponding to 2/T in [Bender]. Its
